@@ -143,18 +143,20 @@ class Map(Evaluatable[Iterable[Tuple[Dict[str, JSON], A]]]):
 
     def explain(self, options: Optional[Options] = None) -> Set[str]:
         """Return the option keys required by the evaluatable and the option iterables"""
+        iterables = set().union(
+            *(iterable.explain(options) for iterable in self.iterables.values())
+        )
         try:
-            return set().union(
-                self._iter(options or {}).explain(options),
-                *(iterable.explain(options) for iterable in self.iterables.values()),
-            )
+            elements = self._iter(options or {})
         except EvaluationError:
-            # the mapped keys are overridden for the evaluatable: their values in the
-            # caller's options (and what those refer to) are not dependencies
+            # the iterables cannot be evaluated yet: explain the evaluatable on its own.
+            # The mapped keys are overridden for it: their values in the caller's
+            # options (and what those refer to) are not dependencies
             outer = _without(options or {}, self.iterables.keys())
-            return (self.evaluatable.explain(outer) - self.iterables.keys()) | set().union(
-                *(iterable.explain(options) for iterable in self.iterables.values())
-            )
+            return (self.evaluatable.explain(outer) - self.iterables.keys()) | iterables
+
+        # (an element whose branch cannot be chosen is not explained away)
+        return elements.explain(options) | iterables
 
     def _iter(
         self, options: Options
